@@ -26,7 +26,7 @@ Rec(name, len, fields) == [name |-> name, len |-> len, fields |-> fields]
 (* ---------------- parameter records ---------------- *)
 \* leader  : [nmap, np, attlen, nch, f1, f2, f3, f4]
 \* volume  : [nfp]
-\* image   : [kind \in {"signal","processed"}, n, ndata]      (ndata = pixels * bytes per sample)
+\* image   : [kind \in {"signal","processed"}, n, ndata, bps]   (ndata = pixels * bytes per sample)
 \* trailer : [nlow, lens]  lens = sequence of the nlow low-resolution image byte lengths
 
 LeaderRecords(p) ==
@@ -128,7 +128,7 @@ VolumeDeclared(p) ==
 ImageDeclared(p) ==
     LET recs   == ImageRecords(p)
         reclen == LinePrefix(p.kind) + p.ndata
-        bps    == IF p.kind = "signal" THEN 8 ELSE 2
+        bps    == p.bps
     IN  << <<1, "preamble.record_length", 720>>, <<1, "preamble.record_sequence_number", 1>>,
            <<1, "number_of_sar_data_records", p.n>>, <<1, "sar_data_record_length", reclen>>,
            <<1, "sar_related_data_in_the_record.number_of_lines_per_dataset", p.n>>,
